@@ -40,6 +40,7 @@ type pppoeSys struct {
 	live    map[uint16]*pref
 	creates int
 	maxNew  int
+	newest  map[string]uint16 // MAC name -> id of the session created last for it
 	viols   []explore.Viol
 }
 
@@ -48,7 +49,7 @@ func newPppoeSys(startID uint16, maxNew int) *pppoeSys {
 	if startID != 1 {
 		m.VerifC20SetNextID(startID)
 	}
-	return &pppoeSys{m: m, live: map[uint16]*pref{}, maxNew: maxNew}
+	return &pppoeSys{m: m, live: map[uint16]*pref{}, maxNew: maxNew, newest: map[string]uint16{}}
 }
 
 func (s *pppoeSys) ids() []int {
@@ -92,6 +93,7 @@ func (s *pppoeSys) Apply(op string) string {
 			s.v("id-zero", "CreateSession", "new session for %s was given session id 0 (reserved for discovery; the allocator's own rule is to skip 0)", args[0])
 		}
 		s.live[sess.ID] = &pref{mac: args[0], last: time.Now(), sess: sess}
+		s.newest[args[0]] = sess.ID
 		return fmt.Sprint(sess.ID)
 	case "Remove":
 		id, _ := strconv.Atoi(args[0])
@@ -165,7 +167,11 @@ func (s *pppoeSys) Check() []explore.Viol {
 		g := s.m.GetSessionByMAC(pMACs[name])
 		switch {
 		case g == nil && len(liveOfMAC) > 0:
-			kind := "reverse-missing"
+			// which of the MAC's sessions is gone decides the root cause (see classify)
+			kind := "reverse-missing/newest-removed"
+			if r, ok := s.live[s.newest[name]]; ok && r.mac == name {
+				kind = "reverse-missing/newest-live"
+			}
 			s.v(kind, "GetSessionByMAC", "MAC %s has live sessions %v but GetSessionByMAC returns nil", name, liveOfMAC)
 		case g != nil:
 			r, ok := s.live[g.ID]
